@@ -84,6 +84,11 @@ func (m *ModelServer) ListHails(_ context.Context, request *traits.ListHailsRequ
 
 	// page over the unfiltered listing: the read mask may leave out the field the page token is made of
 	sortedItems := m.model.ListHails()
+	// the collection lists in the order of its own keys, which an id interceptor can make differ from the
+	// order of the field the page token is made of and the search below relies on
+	sort.Slice(sortedItems, func(i, j int) bool {
+		return sortedItems[i].Id < sortedItems[j].Id
+	})
 	nextIndex := 0
 	if lastKey != "" {
 		nextIndex = sort.Search(len(sortedItems), func(i int) bool {
